@@ -942,7 +942,9 @@ var _ rpc.Resources
 //@       Subscription.eventQueue, Subscription.throttle, Subscription.reaccessThrottle, Subscription.resourceSub, Subscription.refs, elems(s.c.(*wsConn).subs), pkgstate(rescache), cachecontainers()
 // (references are given back with the subscription's sent state as it was before the disposal:
 // a resource that was sent takes one sent-parent count from each referenced resource)
-//@   assert[C02] s.unsubscribeRefs#1: arg0 == (old(s.state) == stateSent)
+// (a subscription whose resource was deleted had been sent, too: the delete event only reaches
+// a subscription whose events are not held)
+//@   assert[C02] s.unsubscribeRefs#1: arg0 == (old(s.state) == stateSent || old(s.state) == stateDeleted)
 //@   safety[C15]
 
 // dispose: idempotent; the connection is marked as disposing, leaves the token-reset fan-out,
